@@ -511,15 +511,20 @@ fn word_magic(xs: &mut Xstate) -> Xresult {
             fail_pos: pos,
         });
     }
-    move_offset_checked(xs, s.end())?;
-    xs.push_data(Cell::from(s))
+    let end = s.end();
+    push_read(xs, Cell::from(s), end)
+}
+
+// the result is pushed before the cursor moves: a push refused by the stack limit must not consume input
+fn push_read(xs: &mut Xstate, val: Cell, end: usize) -> Xresult {
+    xs.push_data(val)?;
+    move_offset_checked(xs, end)
 }
 
 fn read_bits(xs: &mut Xstate, n: usize) -> Xresult {
     let s = peek_bits(xs, n)?;
-    move_offset_checked(xs, s.end())?;
-    let val = Cell::from(s);
-    xs.push_data(val)
+    let end = s.end();
+    push_read(xs, Cell::from(s), end)
 }
 
 fn word_bitstr(xs: &mut Xstate) -> Xresult {
@@ -558,8 +563,8 @@ fn read_unsigned(xs: &mut Xstate, n: usize, bo: Byteorder) -> Xresult {
         return Err(Xerr::IntegerOverflow);
     }
     let x = s.to_uint(bo) as Xint;
-    move_offset_checked(xs, s.end())?;
-    xs.push_data(Cell::from(x).with_tags(bitstr_num_tags(s, bo)))
+    let end = s.end();
+    push_read(xs, Cell::from(x).with_tags(bitstr_num_tags(s, bo)), end)
 }
 
 fn read_signed(xs: &mut Xstate, n: usize, bo: Byteorder) -> Xresult {
@@ -568,8 +573,8 @@ fn read_signed(xs: &mut Xstate, n: usize, bo: Byteorder) -> Xresult {
         return Err(Xerr::IntegerOverflow);
     }
     let x = s.to_int(bo);
-    move_offset_checked(xs, s.end())?;
-    xs.push_data(Cell::from(x).with_tags(bitstr_num_tags(s, bo)))
+    let end = s.end();
+    push_read(xs, Cell::from(x).with_tags(bitstr_num_tags(s, bo)), end)
 }
 
 fn read_signed_n(xs: &mut Xstate, n: usize) -> Xresult {
@@ -594,8 +599,8 @@ fn read_float(xs: &mut Xstate, n: usize, bo: Byteorder) -> Xresult {
         64 => s.to_f64(bo) as Xreal,
         n => return Err(float_len_err(n)),
     };
-    move_offset_checked(xs, s.end())?;
-    xs.push_data(Cell::from(val).with_tags(bitstr_num_tags(s, bo)))
+    let end = s.end();
+    push_read(xs, Cell::from(val).with_tags(bitstr_num_tags(s, bo)), end)
 }
 
 fn bitstr_num_tags(bs: Bitstr, bo: Byteorder) -> Xmap {
@@ -607,7 +612,7 @@ fn bitstr_num_tags(bs: Bitstr, bo: Byteorder) -> Xmap {
     m
 }
 
-fn nulbytestr_read(xs: &mut Xstate) -> Xresult1<Bitstr> {
+fn nulbytestr_read(xs: &mut Xstate) -> Xresult1<(Bitstr, usize)> {
     let mut s = rest_bits(xs)?;
     if !s.is_bytestr() {
         return Err(Xerr::ToBytestrError(s));
@@ -621,17 +626,16 @@ fn nulbytestr_read(xs: &mut Xstate) -> Xresult1<Bitstr> {
         }
     }
     let ss = s.read(len).unwrap();
-    move_offset_checked(xs, start + len)?;
-    Ok(ss)
+    Ok((ss, start + len))
 }
 
 fn nulbytestr_word(xs: &mut Xstate) -> Xresult {
-    let bs = nulbytestr_read(xs)?;
-    xs.push_data(Cell::from(bs))
+    let (bs, end) = nulbytestr_read(xs)?;
+    push_read(xs, Cell::from(bs), end)
 }
 
 fn cstr_word(xs: &mut Xstate) -> Xresult {
-    let bs = nulbytestr_read(xs)?;
+    let (bs, end) = nulbytestr_read(xs)?;
     let mut s = String::with_capacity(bs.len() / 8 + 1);
     for (x, _) in bs.iter8() {
         if x == 0 {
@@ -640,7 +644,7 @@ fn cstr_word(xs: &mut Xstate) -> Xresult {
         let c = char::from_u32(x as u32).unwrap();
         s.push(c)
     }
-    xs.push_data(Cell::from(s))
+    push_read(xs, Cell::from(s), end)
 }
 
 fn word_write(xs: &mut Xstate) -> Xresult {
